@@ -80,7 +80,38 @@ fn check_foreign(l: &Layout, rs: &[RangeSpec]) -> CaseResult {
     ensure!(s.map == a.map, "C12/readers-differ/read_directories", "read_directories and read_directories_async return different maps ({} vs {} ids)", s.map.len(), a.map.len());
     ensure!(s.ids == a.ids && s.fields == a.fields && s.tiles == a.tiles, "C12/readers-differ/PMTiles", "from_reader and from_async_reader open the archive differently");
     let cut = ranges_agree(&b.bytes, &b.steer, rs)?;
-    Ok(Meta::new(l.internal != 1 || b.facts.depth >= 2 || cut).label(true, "foreign-archive").label(b.facts.depth >= 2, "with-leaves").label(cut, "range-cuts").label(true, super::c01::codec_label(l.internal)))
+    // the opened archive written again by the sync and by the async writer (tiles stay in the backing reader)
+    let rs_ = guarded("from_reader+to_writer", || -> std::io::Result<Vec<u8>> {
+        let pm = PMTiles::from_reader(std::io::Cursor::new(b.bytes.clone()))?;
+        let mut out = std::io::Cursor::new(Vec::new());
+        pm.to_writer(&mut out)?;
+        Ok(out.into_inner())
+    })?;
+    let ra_ = guarded("from_async_reader+to_async_writer", || -> std::io::Result<Vec<u8>> {
+        let pm = block_on(PMTiles::from_async_reader(futures::io::Cursor::new(b.bytes.clone())))?;
+        let mut out = futures::io::Cursor::new(Vec::new());
+        block_on(pm.to_async_writer(&mut out))?;
+        Ok(out.into_inner())
+    })?;
+    match (rs_, ra_) {
+        (Ok(ws), Ok(wa)) => {
+            if l.internal == 1 {
+                if ws != wa {
+                    let at = ws.iter().zip(&wa).position(|(x, y)| x != y).unwrap_or(ws.len().min(wa.len()));
+                    fail!("C12/uncompressed-archives-differ/rewrite-of-opened", "internal compression none: re-written by the sync writer {} bytes, by the async writer {} bytes, first difference at {at}", ws.len(), wa.len());
+                }
+            } else if b.expected.values().map(|(_, n)| u64::from(*n)).sum::<u64>() <= 48 << 20 {
+                let model: BTreeMap<u64, Vec<u8>> = b.expected.iter().map(|(k, (o, n))| (*k, b.bytes[*o as usize..*o as usize + *n as usize].to_vec())).collect();
+                for (wname, bytes) in [("sync-writer", ws), ("async-writer", wa)] {
+                    let mut a = guarded("open", || Arch::open_sync(bytes))?.map_err(|e| Fail::new(format!("C12/open-err/{wname}/rewrite-of-opened"), format!("{e}")))?;
+                    super::c01::compare_tiles(&mut a, &model, None, 5, &format!("C12/{wname}/rewrite-of-opened"))?;
+                }
+            }
+        }
+        (Err(_), Err(_)) => {}
+        (s, a) => fail!("C12/rewrite-of-opened-differs", "re-writing the opened archive: sync writer is {} but async writer is {}", if s.is_ok() { "Ok" } else { "Err" }, if a.is_ok() { "Ok" } else { "Err" }),
+    }
+    Ok(Meta::new(l.internal != 1 || b.facts.depth >= 2 || cut).label(true, "foreign-archive").label(b.facts.prefix_overlap, "same-offset-different-length").label(b.facts.depth >= 2, "with-leaves").label(cut, "range-cuts").label(true, super::c01::codec_label(l.internal)))
 }
 
 fn check_written(l: &Logical, rs: &[RangeSpec]) -> CaseResult {
